@@ -376,6 +376,36 @@ func enumProbes(rng *rand.Rand, full bool, keep float64) []probe {
 			}
 		}
 	}
+	// `v = v OP c`, `v = c OP v`, `return v OP c` with an untyped constant operand: the operation's own type is checked against
+	// the destination since aa2ac2f (operationResult); the valid forms must stay accepted
+	opLits := []*expr{{K: "lit", Lit: "int", V: 1}, {K: "lit", Lit: "int", V: 200}, {K: "lit", Lit: "float", V: 2}, {K: "lit", Lit: "float", V: 1, Frac: true}, {K: "lit", Lit: "string"}}
+	for _, a := range ops {
+		for _, l := range opLits {
+			for _, so := range []struct{ k, op string }{{"bin", "sub"}, {"bin", "add"}, {"shift", "shl"}, {"cmp", "lt"}, {"cmp", "eq"}, {"bin", "rem"}} {
+				so, l := so, l
+				lo := operand{lit: l}
+				for _, left := range []bool{true, false} {
+					left := left
+					mkE := func(v *expr) *expr {
+						if left {
+							return &expr{K: so.k, Op: so.op, A: l.clone(), B: v}
+						}
+						return &expr{K: so.k, Op: so.op, A: v, B: l.clone()}
+					}
+					side := "right"
+					if left {
+						side = "left"
+					}
+					add("assign-op-const", so.k+so.op+":"+side, mk([]operand{a}, func(es []*expr, nv int) []*stmt {
+						return []*stmt{{K: "assign", I: 0, E: mkE(es[0])}}
+					}), a, lo)
+					if a.t.K == "s" {
+						add("return-op-const", so.k+so.op+":"+side, &prog{Funcs: []*fn{{Params: []sty{a.t.S}, Rets: []sty{a.t.S}, Body: []*stmt{{K: "ret", Args: []*expr{mkE(&expr{K: "var", I: 0})}}}}}}, a, lo)
+					}
+				}
+			}
+		}
+	}
 	// a receive as the source of a declaration, then a use of the variable at its declared type
 	for _, a := range ops {
 		for _, b := range ops {
